@@ -27,7 +27,9 @@ def strip_generics_tail(c):
         depth = 0
         i = len(c) - 1
         while i >= 0:
-            if c[i] == ">":
+            if c[i] == ">" and i > 0 and c[i - 1] == "-":
+                pass
+            elif c[i] == ">":
                 depth += 1
             elif c[i] == "<":
                 depth -= 1
